@@ -376,7 +376,8 @@ func (g *G) genGrid(id string) *History {
 				// the client's validator behind an empty first field line (the list `, "client"`)
 				hdr = append(hdr, [2]string{"If-None-Match", ""})
 			}
-			hdr = append(hdr, [2]string{"If-None-Match", `"client"`})
+			// (a value of white space only is no value: net/http trims it on the wire, the origin sees none)
+			hdr = append(hdr, [2]string{"If-None-Match", pick(g, `"client"`, `"client"`, " ", "\t ")})
 		}
 		if g.chance(0.04) {
 			// the client's own date: behind a stored ETag the origin ignores it (If-None-Match takes precedence)
